@@ -77,6 +77,9 @@ var ops = []struct{ Method, Path, ID string }{
 	{"PUT", "/b/{id}", "opB2"},
 	{"POST", "/c/{id}/x/{sub}", "opC"},
 	{"GET", "/a/{id}", "opG"},
+	{"POST", "/s", "opS"},
+	{"GET", "/s", "opSG"},
+	{"PUT", "/s/t", "opT"},
 }
 
 func specDoc() json.RawMessage {
@@ -116,6 +119,12 @@ func specDoc() json.RawMessage {
 				"put":  mk("opB2", []M{pid, body}, true, []M{both, {}}),
 			},
 			"/c/{id}/x/{sub}": M{"post": mk("opC", []M{pid, psub, n, body}, true, []M{oaRW, k1})},
+			// operations without path parameters: their route has nothing request-specific in its pattern
+			"/s": M{
+				"post": mk("opS", []M{q, hx, body}, true, []M{k1, {}}),
+				"get":  mk("opSG", []M{q, n}, false, []M{k2, oaR, {}}),
+			},
+			"/s/t": M{"put": mk("opT", []M{q, body}, true, []M{both, k1})},
 		}}
 	raw, _ := json.Marshal(spec)
 	return raw
@@ -128,6 +137,22 @@ var (
 	sharedDoc *loads.Document
 	docErr    error
 )
+
+// principalFor yields principals of every shape an application may use; zero values of non-pointer types are
+// principals like any other (only nil means "no principal").
+func principalFor(scheme, tok string) interface{} {
+	switch {
+	case strings.HasPrefix(tok, "z0-"):
+		return int64(0)
+	case strings.HasPrefix(tok, "zs-"):
+		return ""
+	case strings.HasPrefix(tok, "zf-"):
+		return false
+	case strings.HasPrefix(tok, "ze-"):
+		return struct{}{}
+	}
+	return &principal{Scheme: scheme, Token: tok}
+}
 
 // principal is what an accepting authenticator yields.
 type principal struct {
@@ -184,7 +209,7 @@ func buildWorld(nAuth, nCons, nProd, nHand int) (*world, error) {
 			if strings.HasPrefix(tok, "bad-") {
 				return nil, errors.New(http.StatusUnauthorized, "rejected %s", tok)
 			}
-			return &principal{Scheme: scheme, Token: tok}, nil
+			return principalFor(scheme, tok), nil
 		}
 	}
 	api.RegisterAuth("key1", security.APIKeyAuth("X-Key", "header", mkAuth("key1")))
@@ -195,7 +220,7 @@ func buildWorld(nAuth, nCons, nProd, nHand int) (*world, error) {
 		if strings.HasPrefix(tok, "bad-") {
 			return nil, errors.New(http.StatusUnauthorized, "rejected %s", tok)
 		}
-		return &principal{Scheme: "oa[" + strings.Join(scopes, " ") + "]", Token: tok}, nil
+		return principalFor("oa["+strings.Join(scopes, " ")+"]", tok), nil
 	}))
 	for _, o := range ops {
 		o := o
@@ -223,8 +248,14 @@ func buildWorld(nAuth, nCons, nProd, nHand int) (*world, error) {
 				rw.Header().Set("X-Seen-Params", strings.Join(ps, "&"))
 				if _, r2, err := w.ctx.Authorize(r, route); err == nil && r2 != nil {
 					r = r2
-					if p, ok := middleware.SecurityPrincipalFrom(r).(*principal); ok && p != nil {
-						rw.Header().Set("X-Seen-Principal", p.Token)
+					switch p := middleware.SecurityPrincipalFrom(r).(type) {
+					case *principal:
+						if p != nil {
+							rw.Header().Set("X-Seen-Principal", p.Token)
+						}
+					case nil:
+					default:
+						rw.Header().Set("X-Seen-Principal", fmt.Sprintf("%T(%v)", p, p))
 					}
 					rw.Header().Set("X-Seen-Scopes", strings.Join(middleware.SecurityScopesFrom(r), ","))
 				}
@@ -283,6 +314,8 @@ func (r Req) build(token string) *http.Request {
 		req.Header.Set("X-Key", "k-"+token)
 	case "bad1":
 		req.Header.Set("X-Key", "bad-"+token)
+	case "zero-int", "zero-string", "zero-bool", "zero-struct":
+		req.Header.Set("X-Key", map[string]string{"zero-int": "z0-", "zero-string": "zs-", "zero-bool": "zf-", "zero-struct": "ze-"}[r.Cred]+token)
 	case "bearer":
 		req.Header.Set("Authorization", "Bearer oa-"+token)
 	case "badbearer":
